@@ -389,6 +389,18 @@ Definition rit_next (s : rit) : option A * rit :=
   | v :: rest => (Some v, mk_rit (r_first s) rest (if r_first s then r_buf s ++ [v] else r_buf s))
   end.
 
+(* __iter__: `return self` -- the identity on the state (iter(), a new for loop, islice, list()
+   in the middle of a pass do NOT rewind) *)
+Definition rit_iter (s : rit) : rit := s.
+
+(* a sequence of calls: true = next(it), false = iter(it); the values next() returned *)
+Fixpoint rit_run (ops : list bool) (s : rit) : list (option A) :=
+  match ops with
+  | [] => []
+  | true :: ops' => let (v, s') := rit_next s in v :: rit_run ops' s'
+  | false :: ops' => rit_run ops' (rit_iter s)
+  end.
+
 Fixpoint rit_trace (n : nat) (s : rit) : list (option A) :=
   match n with
   | O => []
@@ -416,6 +428,7 @@ Inductive C15_case :=
 | CShuffle (B : Z) (code : list nat) (draws : list Z) (n : nat)
 | CShufBatch (bs B a b : Z) (code : list nat) (draws : list Z) (ds : list (Z * Z * nat))
 | CRepeat (container : bool) (n : nat) (calls : nat)
+| CRepeatOps (container : bool) (n : nat) (ops : list bool)
 | CShufClients (B : Z) (oracles : list (list nat * list Z)) (n : nat)
 | CSrb (bs B : Z) (code : list nat) (draws : list Z) (prefix : list Z) (take : nat).
 
@@ -450,6 +463,8 @@ Definition C15_agree (c : C15_case) (o : C15_obs) : bool :=
     end
   | CRepeat container n calls, ORepeat trace =>
     list_beq optz_eqb (rit_trace calls (rit_init container (idx n))) trace
+  | CRepeatOps container n ops, ORepeat trace =>
+    list_beq optz_eqb (rit_run ops (rit_init container (idx n))) trace
   | CShufClients B oracles n, OShufClients stream =>
     match shuffled_clients_passes B oracles (idx n) with
     | Some passes => lz_eqb (concat passes) stream
